@@ -205,6 +205,10 @@ def _call(args):
         return ("ok", fn(item))
     except BaseException as e:  # a worker must never die silently
         return ("err", "".join(traceback.format_exception(type(e), e, e.__traceback__)))
+    finally:
+        if os.environ.get("VERIF_LIBCOV"):
+            from . import libcov
+            libcov.dump()
 
 
 def shard_map(fn: Callable[[Any], Any], items: List[Any], workers: Optional[int] = None) -> List[Any]:
